@@ -225,7 +225,7 @@ func propC02(w *World, r *Report, tier string) {
 					continue
 				}
 			}
-			if !ds.New || !ds.NewArgIeiN || !f.Desc.NewOK {
+			if !ds.New || !(ds.NewArgIeiN || (ds.StoreOctet && !f.Desc.HasIei)) || !f.Desc.NewOK {
 				r.Fail("codec.dual.optional", df, f.IE, dc.Pos, "decoder does not allocate the element with the received identifier", nil)
 				continue
 			}
@@ -442,7 +442,7 @@ func propC03(w *World, r *Report, tier string) {
 					continue
 				}
 				ds, pos = &dc.Slot, dc.Pos
-				if !ds.New || !ds.NewArgIeiN || !f.Desc.NewOK {
+				if !ds.New || !(ds.NewArgIeiN || (ds.StoreOctet && !f.Desc.HasIei)) || !f.Desc.NewOK {
 					r.Fail("codec.verbatim-store", df, f.IE, pos, "received identifier is not stored verbatim (constructor call with the received octet)", nil)
 					continue
 				}
